@@ -100,6 +100,49 @@ def gen_scenarios(kind, rnd, n):
     return out
 
 
+METHOD_OPS = {
+    "insert": "insert 0 1 {v} 3", "insert_range": "insert_range 3 2 0 1 {v} 0 2 {w}", "erase": "erase 1",
+    "erase_range": "erase_range 2 1 2", "find": "find 1 0", "find_range": "find_range 0 2 1 2",
+    "find_range_fill": "find_range_fill 0 2 1 2", "find_with_use_count": "find_use 1 0",
+    "clean_expired_values": "clean", "dynamically_age": "dyn_age", "clear": "clear", "update_ttl": "update_ttl 1",
+    "size": "size", "empty": "empty", "capacity": "capacity",
+}
+
+
+def targeted_scenarios(kind, method, idx):
+    """a method whose skeleton failed the atomicity obligation, run against every kind of conflicting call"""
+    base = METHOD_OPS.get(method)
+    if base is None:
+        return []
+    if kind == 2 and method in ("insert", "erase", "find"):
+        pass
+    others = ["insert_range 3 2 0 1 {v} 0 2 {w}", "erase_range 2 1 2", "find_range 0 2 1 2", "insert 0 1 {v} 3", "erase 2",
+              "insert 0 3 {v} 3", "size"]
+    if kind in TTLK:
+        others += ["clean"]
+    if kind == 7:
+        others += ["update_ttl 1", "clear"]
+    if kind == 8:
+        others += ["clear"]
+    out = []
+    now = 1000 * MS
+    n = 0
+    for cap in (2, 1, 3):
+        for oth in others:
+            for two in (False, True):
+                n += 1
+                v = 100 + 10 * n
+                def fmt(t, a, b):
+                    t = t.format(v=1 if kind == 9 else a, w=1 if kind == 9 else b)
+                    return t
+                progs = [[fmt(base, v, v + 1)], [fmt(oth, v + 2, v + 3)] + ([fmt("find_range 0 2 1 2", 0, 0)] if two else [])]
+                pre = ["op %d insert %d 1 %d 3" % (now, 5 if kind == 6 else 0, 10 if kind != 9 else 1),
+                       "op %d insert %d 2 %d 3" % (now, 5 if kind == 6 else 0, 20 if kind != 9 else 1)][:cap]
+                out.append(dict(id="%s-t%d-%s-%d" % (KINDS[kind], idx, method, n), kind=kind, cap=cap if kind != 3 else 6, ttl=5, tick=1, rnum=1, rk=1,
+                                now=now, universe=[1, 2, 3, 4], pre=pre, progs=progs, post=[]))
+    return out
+
+
 def write_scenarios(scs, path):
     with open(path, "w") as f:
         for s in scs:
@@ -177,7 +220,7 @@ def final_to_probe(final, cap, kind):
     return "P s%d e%d c%s %s" % (size, 1 if size == 0 else 0, "-" if kind in (8, 9) else str(cap), " ".join(w[2:]))
 
 
-def run(prop, tier, seed, res, check):
+def run(prop, tier, seed, res, check, targets=None):
     ok, lg = ensure(check)
     if not ok:
         res["broken"].append(dict(what="scheduler harness build", detail=lg[-2500:]))
@@ -191,6 +234,9 @@ def run(prop, tier, seed, res, check):
     jobs = []
     for k in range(10):
         scs = gen_scenarios(k, rnd, nsc)
+        for ti, (tk, meth) in enumerate(targets or []):
+            if tk == k:
+                scs += targeted_scenarios(k, meth, ti)
         for s in scs:
             allsc[s["id"]] = s
         f = os.path.join(d, "sched_%d.scn" % k)
